@@ -136,8 +136,11 @@ def main() -> int:
         cases = [[]]
         for sk, svals in (meta.get("split") or {}).items():
             cases = [c + [(sk, v)] for c in cases for v in svals]
-        for case in cases:
+        for ci, case in enumerate(cases):
             cmd = [PY, "-m", "engine.runob", mn, fn.__name__, "--timeout", str(budget), "--witness-timeout", str(max(30.0, budget / 3))]
+            if meta.get("witness_first_only") and ci > 0:
+                # generated families of identical shape: the reachability witness is taken on the first member only
+                cmd.append("--no-witness")
             for x in excl.get((mn, fn.__name__), []):
                 cmd += ["--exclude", x]
             for sk, v in case:
